@@ -61,17 +61,18 @@ Definition make_elem (e : list N) : res elem :=
 Definition elem_to_str (el : elem) : list N :=
   (if e_hard el then sub_hard_prefix else sub_soft_prefix) ++ e_body el.
 
-(* SubstratePathElem.__ComputeChainCode.  [int_err]: what a ValueError of int() becomes
-   (SubstratePathError for the parser the property demands; it escapes as ValueError today, F5). *)
+(* SubstratePathElem.__ComputeChainCode.  A junction made of decimal digits only (str.isdecimal(): exactly the
+   characters int() converts) is an integer; int() can then fail only on the interpreter's digit limit, which
+   the code reports as SubstratePathError.  Every other junction is text. *)
 Definition bit_length (v : Z) : N := N.size (Z.abs_N v).
 
 Section ChainCode.
   Variable blake2b_256 : list N -> list N.         (* oracle: Blake2b256.QuickDigest *)
 
-  Definition chain_code_gen (int_err : exn) (body : list N) : res (list N) :=
-    enc <- (if py_isnumeric body then
+  Definition chain_code (body : list N) : res (list N) :=
+    enc <- (if py_isdecimal body then
               match py_int body with
-              | inr _ => Err int_err
+              | inr _ => Err (LibError SubstratePathError)
               | inl v =>
                 match find (fun be => bit_length v <=? fst be) sub_scale_int_encoders with
                 | None => Err (LibError SubstratePathError)
@@ -81,9 +82,6 @@ Section ChainCode.
             else bytes_encode_str body) ;;
     if (sub_enc_elem_max_len <? length enc)%nat then Ok (blake2b_256 enc)
     else Ok (enc ++ repeat 0 (sub_enc_elem_max_len - length enc)).
-
-  Definition chain_code := chain_code_gen (LibError SubstratePathError).
-  Definition chain_code_current := chain_code_gen ValueError.
 End ChainCode.
 
 (* ---- SubstratePath / SubstratePathParser ---- *)
